@@ -37,7 +37,7 @@ const c17MaxN = 12
 
 type pagerMarkup struct {
 	Sep, Open, Close, Cur string
-	Nav                  string // "", "Prev/Next", "Previous/Next"
+	Nav                   string // "", "Prev/Next", "Previous/Next"
 }
 
 func (m pagerMarkup) String() string {
@@ -270,6 +270,7 @@ func runC17(ctx *Ctx) {
 						}
 						if mi == 0 {
 							payload, impl := paginationCase(data)
+							paginationPremises(pn, data)
 							pn.add(payload, impl, replay)
 						}
 					}
